@@ -60,6 +60,25 @@ def rerun(ctx, prog, ins, k, budget_ms=60000):
 
 IMPURE = re.compile(r"\binputs?\b")
 
+_STR_TOK = re.compile(r"\bS((?:[0-9a-f]{2})+)\b")
+_MSGS = [b"cannot calculate", b"cannot index"]
+
+
+def canon_line(s):
+    """Error messages built by the interpreter are compared by class: a string (error value or,
+    after `catch`, ordinary value, also after concatenation) that contains such a message is
+    replaced by the first message class it contains.  Applied to real runs and model answers alike."""
+    def rep(m):
+        try:
+            raw = bytes.fromhex(m.group(1))
+        except ValueError:
+            return m.group(0)
+        hits = [(raw.find(x), x) for x in _MSGS if x in raw]
+        if not hits:
+            return m.group(0)
+        return "S" + min(hits)[1].hex()
+    return _STR_TOK.sub(rep, s)
+
 
 def index_filters(prog):
     """Texts of the index filters `…[i]` of a program printed by the harness (`(f)[i]`)."""
@@ -101,6 +120,17 @@ def cli_cases():
         ("limit-before-divergence", ["-n", "def g: g; limit(2; (1, 2, g))"], "", "1\n2\n", 0),
         ("halt-before-divergence", ["-n", "def g: g; 1, halt, g"], "", "1\n", 0),
         ("limit-zero-does-not-read", ["-n", "limit(0; input), input"], "1 2", "1\n", 0),
+        # round 2
+        ("foreach-proj-inputs-rest-malformed", ["-n", "-c", "limit(2; foreach inputs as $x (0; . + $x; [$x, .]))"], "1 2 ]]]", "[1,1]\n[2,3]\n", 0),
+        ("reduce-limit-inputs-rest-malformed", ["-n", "reduce limit(2; inputs) as $x (0; . + $x), input"], "1 2 3 ]", "3\n3\n", 0),
+        ("first-foreach-multi-init", ["-n", "first(foreach inputs as $x ((0, error); . + $x))"], "1 }", "1\n", 0),
+        ("array-limit-inputs", ["-n", "-c", "[limit(2; inputs)], input"], "1 2 3 ]", "[1,2]\n3\n", 0),
+        ("while-inputs", ["-n", "-c", "[limit(3; 0 | while(true; input))]"], "5 6 }", "[0,5,6]\n", 0),
+        ("until-stops", ["-n", "0 | until(. != 0; input)"], "0 0 7 ]", "7\n", 0),
+        ("closure-first", ["-n", "def f(g): first(g); f(inputs), input"], "1 2 ]", "1\n2\n", 0),
+        ("recurse-limit-closure", ["-n", "-c", "[limit(3; 1 | recurse(. + input))]"], "10 20 }", "[1,11,31]\n", 0),
+        ("repeat-input-limit", ["-n", "-c", "[limit(2; repeat(input))]"], "1 2 ]", "[1,2]\n", 0),
+        ("math-left-outer", ["-n", "first((input, error) + 1), input"], "1 2", "2\n2\n", 0),
     ]
 
 
@@ -140,7 +170,7 @@ def run(ctx):
     ans = ctx.model([r[4] for r in rows])
 
     stats = {"agree": 0, "model_differs": 0, "order_violation": 0, "spurious_timeouts": 0, "confirmed_timeouts": 0,
-             "unconfirmed_timeouts": 0, "skipped": 0}
+             "unconfirmed_timeouts": 0, "skipped": 0, "in_proved_class": 0, "outside_proved_class": 0}
     kinds, consumers, bombs = {}, {}, {}
     samples = []
     diverge_expected = 0
@@ -157,10 +187,13 @@ def run(ctx):
             stats["skipped"] += 1
             if ctx.violations:
                 continue  # failing inputs are already in hand; do not spend a process per remaining case
-            real = rerun(ctx, prog, ins, int(k))
-        if " | R " not in a or not a.startswith("I "):
+            real = canon_line(rerun(ctx, prog, ins, int(k)))
+        if " | R " not in a or not a.startswith("I ") or " | P " not in a:
             raise verif.CheckError("model driver answered `%s` to `%s`" % (a, req[:200]))
+        a, in_class = a.rsplit(" | P ", 1)
+        stats["in_proved_class" if in_class == "1" else "outside_proved_class"] += 1
         it, ref = a[2:].split(" | R ")
+        real, it, ref = canon_line(real), canon_line(it), canon_line(ref)
         if "DIVERGE" in real and (real != it or real != ref):
             # a time-out of the real run that the models do not predict: confirm it in a fresh
             # process with a long budget before believing it (the machine may be loaded)
@@ -168,7 +201,7 @@ def run(ctx):
                 # enough confirmed divergences are reported already; do not spend a minute on each further one
                 stats["unconfirmed_timeouts"] += 1
                 continue
-            real2 = rerun(ctx, prog, ins, int(k))
+            real2 = canon_line(rerun(ctx, prog, ins, int(k)))
             if "DIVERGE" not in real2:
                 stats["spurious_timeouts"] += 1
             else:
@@ -202,7 +235,8 @@ def run(ctx):
         else:
             key = "c03-order:%s:k=%s:in=%s" % (prog, k, ins)
             what = ("taking %s item(s) of `%s` gives `%s`, the left-to-right semantics gives `%s`" % (k, prog, real, ref))
-        ctx.violation(key, what, case, broken=["take_prefix hypothesis PureIndexFilters"] if impure_idx else ["take_prefix"])
+        ctx.violation(key, what, case, broken=["take_prefix hypothesis PureIndexFilters"] if impure_idx else
+                      ["take_prefix" if in_class == "1" else "left-to-right order (program outside the class of take_prefix)"])
 
     ctx.log("correspondence: %d cases, %d agree, %d model-differs, %d order violations, %d spurious time-outs"
             % (len(rows), stats["agree"], stats["model_differs"], stats["order_violation"], stats["spurious_timeouts"]))
@@ -218,8 +252,10 @@ def run(ctx):
         "rule": "distinct (program, inputs, k) triples; every case runs the real interpreter with a counting input iterator, "
                 "takes exactly k items and compares items, exceptions, number of inputs consumed and termination with the "
                 "iterator model and with the reference; enum cases place a bomb (error, halt, input, inputs, two kinds of "
-                "divergence) behind position 1..%d of %d generator shapes inside %d prefix consumers" % (
-                    3 if ctx.tier == "quick" else 4, 16, 13),
+                "divergence) behind position 1..%d of %d generator shapes (15 of round 1; round 2: reduce/foreach with the bomb in xs, "
+                "update, projection, init, behind an endless inputs; definitions with closures; while; arithmetic on either side; "
+                "arrays) inside %d prefix consumers (round 2: [limit(k; g)], a definition with a closure, foreach with a projection)" % (
+                    3 if ctx.tier == "quick" else 4, len(consumers and {t.split(":")[2] for t, *_ in rows if t.startswith("enum")}), len(consumers)),
         "samples": samples + cli_samples,
         "traces_validated_against_impl": len(rows),
         "case_kinds": kinds,
@@ -236,9 +272,17 @@ def run(ctx):
         "tied to the code by this run's correspondence (items, exceptions, inputs consumed, termination)",
         "std iterator adapters (Chain, FlatMap, Flatten, OnceWith, Filter, MapWhile, Map, from_fn) behave as documented, incl. their size_hint",
         "the trampoline `Stack` of tail-recursive definitions is modelled as transparent for pulls (its stack discipline is C04's subject); "
-        "definitions in the fragment are top-level, without arguments",
+        "a tail call (`Throw`) is modelled as the body built lazily in place; call types and `skip` of the lowered definitions "
+        "(defs.jq: repeat recurse while until; test prelude d1..d6) are written down in the harness following Locals::call",
+        "the shared rc_lazy_list is modelled as the list of forced nodes + the underlying iterator inside the fold state "
+        "(all clones of the list are positions in that one sequence); `size_hint() != (0, Some(0))` is read as `upper bound != 0` (lower <= upper)",
+        "FlatMap(init, i -> FlatMap(fold_i, proj)) of foreach with projection is modelled in the associated form FlatMap(FlatMap(init, fold_i), proj) (same pulls)",
+        "`$`-arguments of definitions that are not `.`/literal/variable are bound with `as` by the harness before the call "
+        "(same construction-time behaviour: both go through next_if_one on the argument's iterator)",
+        "error messages built by the interpreter (cannot index / cannot calculate) are compared by class, also after catch and concatenation",
         "a real run that produces nothing for 10 s (60 s when re-run for confirmation) counts as divergence; the model's divergence is fuel 3000",
         "programs are compiled with the definitions of jaq-core/src/defs.jq (+ `def null: [][0];` as in jaq-std) to keep compile time per case small; "
         "the command-line cases use the complete binary",
-        "rc_lazy_list / fold (reduce, foreach) are outside the Lean fragment; they are exercised only by the command-line cases",
+        "sources xs of generated reduce/foreach are of the class T.lazySrc (construction touches nothing): the manual does not fix "
+        "whether xs or init is started first (theorem fold_header_order_witness shows the two orders differ observably)",
     ]
